@@ -281,6 +281,8 @@ def _object(d, out, schema_props, OLK, RK, where):
             if not isinstance(v, dict):
                 raise NoForm("%s: %r" % (w, v))
             for ck, cv in v.items():
+                if _hidden(ck):
+                    continue
                 out += [("W", "CONFIG"), ("Q", ck.upper()), ("Q", str(cv))]
         elif isinstance(v, dict) and "__type__" in v:
             _object(v, out, schema_props, OLK, RK, where)
